@@ -4,7 +4,6 @@ import (
 	"bytes"
 	"context"
 	"fmt"
-	"regexp"
 	"strconv"
 	"strings"
 
@@ -282,8 +281,6 @@ func c03Serve(stream []byte, frag int, maxBody int, streaming bool) (handled, pr
 	return
 }
 
-var c03CLre = regexp.MustCompile(`(?i)content-length:\s*([0-9]+)`)
-
 var c03ReqSeeds = []string{
 	"GET /a HTTP/1.1\r\nHost: h\r\n\r\n",
 	"POST /b HTTP/1.1\r\nHost: h\r\nContent-Length: 5\r\n\r\nhello",
@@ -329,15 +326,11 @@ func init() {
 		// in: stream bytes, fragment size, body limit, streaming
 		Check: func(t *T, in In) []Finding {
 			stream := in.B(0)
-			if in.N(2) <= 0 {
-				// without a body limit hertz allocates the declared length for real: do not let a
-				// (shrunk) case ask this process for gigabytes; only lengths that are small or that
-				// Go refuses outright (makeslice panic) are run
-				for _, m := range c03CLre.FindAllSubmatch(stream, -1) {
-					if n, err := strconv.ParseUint(string(m[1]), 10, 64); err != nil || (n > 1<<26 && n < 1<<62) {
-						return nil
-					}
-				}
+			if in.N(2) <= 0 && !bytes.Contains(stream, []byte("Content-Length: 9000000000000000000")) {
+				// without a body limit hertz allocates whatever length a message declares (fixed or
+				// chunk size) before the bytes arrive: such inputs would ask THIS process for
+				// gigabytes.  Only the length Go refuses outright (makeslice panic, finding D21) is run.
+				return nil
 			}
 			_, processed, out, closed, err := c03Serve(stream, in.N(1), in.N(2), in.N(3) == 1)
 			var fs []Finding
@@ -382,6 +375,12 @@ func init() {
 					fs = append(fs, Finding{Kind: "oracle", Unit: "c03.server", Class: cls, Impl: string(out), Note: fmt.Sprint(r.status)})
 				}
 			}
+			if len(in) > 4 && in.N(4) == 1 { // a well-formed request whose body exceeds the limit, buffered mode
+				ok413 := len(rs) > 0 && rs[len(rs)-1].status == 413 && processed == 0
+				if !ok413 {
+					fs = append(fs, Finding{Kind: "oracle", Unit: "c03.server", Class: "oversize-body-not-rejected-with-413", Impl: string(out), Note: fmt.Sprintf("limit=%d engine runs=%d", in.N(2), processed)})
+				}
+			}
 			if nHandled != processed {
 				fs = append(fs, Finding{Kind: "oracle", Unit: "c03.server", Class: "handler-ran-for-a-rejected-request", Impl: string(out), Note: fmt.Sprintf("engine runs=%d engine responses=%d", processed, nHandled)})
 			}
@@ -392,6 +391,34 @@ func init() {
 			// configuration without a body limit: a huge declared length
 			t.Do(In{H([]byte("POST / HTTP/1.1\r\nHost: h\r\nContent-Length: 9000000000000000000\r\n\r\nabc")), Nn(0), Nn(0), Nn(0)}, true)
 			t.Do(In{H([]byte("POST / HTTP/1.1\r\nHost: h\r\nContent-Length: 9000000000000000000\r\n\r\nabc")), Nn(0), Nn(4 * 1024 * 1024), Nn(0)}, true)
+			// bodies larger than the limit, every framing, buffered mode: always 413 and no handler
+			for _, body := range []string{
+				"POST /b HTTP/1.1\r\nHost: h\r\nContent-Length: 50\r\n\r\n" + strings.Repeat("x", 50),
+				"POST /c HTTP/1.1\r\nHost: h\r\nTransfer-Encoding: chunked\r\n\r\n19\r\n" + strings.Repeat("y", 25) + "\r\n19\r\n" + strings.Repeat("z", 25) + "\r\n0\r\n\r\n",
+				"PUT /e HTTP/1.1\r\nHost: h\r\nContent-Type: multipart/form-data; boundary=B\r\nContent-Length: 62\r\n\r\n--B\r\nContent-Disposition: form-data; name=\"a\"\r\n\r\nvvvvv\r\n--B--\r\n",
+				"POST /f HTTP/1.1\r\nHost: h\r\nExpect: 100-continue\r\nContent-Length: 50\r\n\r\n" + strings.Repeat("x", 50),
+				"POST /g HTTP/1.1\r\nHost: h\r\nContent-Type: multipart/form-data; boundary=B\r\nExpect: 100-continue\r\nContent-Length: 62\r\n\r\n--B\r\nContent-Disposition: form-data; name=\"a\"\r\n\r\nvvvvv\r\n--B--\r\n",
+			} {
+				for _, lim := range []int{1, 10, 24, 49} {
+					for _, frag := range []int{0, 1, 7} {
+						t.Do(In{H([]byte(body + c03ReqSeeds[0])), Nn(frag), Nn(lim), Nn(0), Nn(1)}, true)
+					}
+				}
+			}
+			// chunk-size lines around the width of an int
+			for _, size := range []string{"fffffffffffffff", "ffffffffffffffff", "8000000000000000", "7fffffffffffffff", "fffffffffffffffff", "0000000000000000000003", "-1", "+3", "0x3", "3;ext=1", " 3", "3 "} {
+				for _, second := range []bool{false, true} {
+					body := "POST /c HTTP/1.1\r\nHost: h\r\nTransfer-Encoding: chunked\r\n\r\n"
+					if second {
+						body += "3\r\nabc\r\n"
+					}
+					body += size + "\r\nabc\r\n0\r\n\r\n"
+					for _, st := range []int{0, 1} {
+						t.Do(In{H([]byte(body)), Nn(0), Nn(4 * 1024 * 1024), Nn(st)}, true)
+						t.Do(In{H([]byte(body)), Nn(5), Nn(64), Nn(st)}, true)
+					}
+				}
+			}
 			for _, seed := range c03ReqSeeds {
 				for _, lim := range []int{4 * 1024 * 1024, 4} {
 					for _, st := range []int{0, 1} {
